@@ -255,16 +255,22 @@ class _Source(_HarnessMixin, strax.Plugin):
     def source_finished(self):
         return True
 
+    def _h_run(self):
+        """(bounds, rows, assignment) of the run being processed (per-run data for superrun checks)."""
+        per_run = getattr(self, "H_RUNS", None)
+        if per_run is not None:
+            return per_run[self.run_id]
+        return self.H_NODE["bounds"], self.H_ROWS, self.H_ASSIGN
+
     def is_ready(self, chunk_i):
-        return chunk_i < len(self.H_NODE["bounds"]) - 1
+        return chunk_i < len(self._h_run()[0]) - 1
 
     def compute(self, chunk_i):
         n = self.H_NODE
-        b = n["bounds"]
+        b, rows, assign = self._h_run()
         start, end = b[chunk_i], b[chunk_i + 1]
-        rows = self.H_ROWS
         # a row belongs to the first chunk whose [start, end) can hold it
-        sel = self.H_ASSIGN == chunk_i
+        sel = assign == chunk_i
         data = rows[sel]
         gate = getattr(self, "H_GATE", None)
         if gate is not None:
@@ -602,6 +608,13 @@ def build_classes(spec, log=None, fault=None, prefix="H"):
             rows = np.array(n["rows"], dtype=np.int64).reshape(-1, 3)
             attrs["H_ROWS"] = make_rows(n["name"], rows[:, 0], rows[:, 1], rows[:, 2])
             attrs["H_ASSIGN"] = assign_rows_to_chunks(n["rows"], n["bounds"])
+            if "runs" in n:
+                per_run = {}
+                for rid, rd in n["runs"].items():
+                    rr = np.array(rd["rows"], dtype=np.int64).reshape(-1, 3)
+                    per_run[rid] = (rd["bounds"], make_rows(n["name"], rr[:, 0], rr[:, 1], rr[:, 2]),
+                                    assign_rows_to_chunks(rd["rows"], rd["bounds"]))
+                attrs["H_RUNS"] = per_run
         if n["kind"] == "loop":
             attrs["loop_over"] = kinds[n["deps"][0]]
         cname = n.get("class_name") or f"{prefix}_{nm[0]}"
